@@ -539,6 +539,9 @@ def verify(fname, n, numeric_seed=None, z0_pattern=None):
             st.update(sol2[0])
             res = (v[k] - out[k] * i[k]).subs(st).subs(st)
             obs.append(("ZI[%d]" % k, zero(res)))
+        # aliasing: the Zin vector written over the input matrix's own storage (vnadata_convert in place)
+        out2 = run(fname, n, M, z0s, alias=True)
+        obs.append(("AL", all(zero(p - q_) for p, q_ in zip(out, out2))))
     else:
         rout = [e.subs(sub) for e in relation(Y, out, n, v, i, z0s)]
         for r, e in enumerate(rout):
